@@ -511,3 +511,6 @@ fn o18_2_undersized_syn_is_not_a_syn() {
     let r = read_handshake_syn_payload(&buf[..n]);
     assert!(r.is_some() == (n == MAX_FRAME_SIZE - 5));
 }
+
+// Decoding helper for the flush-path obligations (child modules of half_connection cannot reach the private reader).
+pub(crate) fn verif_read_datagram(data: &[u8]) -> Option<(Datagram, usize)> { read_datagram(data) }
